@@ -161,7 +161,7 @@ def rekey_prepends(ctx):
         if c.name != 'insert':
             continue
         kr = backward_slice(c.body, [c.args[1]], follow_mutarg=False)
-        ctx.check(any(c.body.var_name(p) == 'rights' for p in kr.params) or c.body is not rb, rb.key, 'insert(key<-rights)',
+        ctx.check(any('HashSet<' in c.body.local_ty(p) for p in kr.params) or c.body is not rb, rb.key, 'insert(key<-rights)',
                   'the re-keyed right (line %d) does not come from the `rights` argument' % c.ln, 'key <- rights', c.where())
         vs = backward_slice(c.body, [c.args[2]], follow_mutarg=False)
         ctx.check(bool(vs.has_call(r'RightSecretKey::random$')), rb.key, 'insert(value<-random)',
@@ -178,7 +178,7 @@ def rekey_prepends(ctx):
                    if not (r[0] == 'call' and r[1].is_(r'FromResidual::from_residual$'))]
             ok = bool(ret) and all(r[0] == 'call' and r[1].is_(r'MasterSecretKey::mpk$') for r in ret)
             ok = ok and all(body.block_dominates(pc[0].b, m.b) and m.b != pc[0].b for m in mp)
-            ok = ok and all(any(r[0] == 'param' and body.var_name(r[1]) == 'msk' for r in root_descr(body, m.args[0])) for m in mp)
+            ok = ok and all(any(r[0] == 'param' and 'core::MasterSecretKey' in body.local_ty(r[1]) for r in root_descr(body, m.args[0])) for m in mp)
         ctx.check(ok, api, 'returns mpk() after %s' % prim.split('::')[-1].rstrip('$'),
                   '%s does not return msk.mpk() computed after the primitive ran: callers would keep encrypting under a '
                   'stale public key' % api, 'return <- msk.mpk() dominated by the primitive call', body.where())
